@@ -6,4 +6,5 @@ cd "$(dirname "$0")/.."
 for v in asan-ts asan-nots tsan-ts; do bin/build_variant.sh $v >/dev/null & done
 wait
 for v in asan-ts asan-nots tsan-ts; do bin/build_harness.sh $v >/dev/null; done
+bin/build_ctl.sh >/dev/null
 echo "setup ok"
